@@ -820,6 +820,11 @@ func (e *Exec) rangeStart(ins *ssa.Range) {
 	if isString(ins.X.Type()) {
 		unsupportedf("range over string")
 	}
+	if opaqueMap(ins.X.Type()) {
+		// contents are not modelled: the loop sees an arbitrary number of arbitrary well-formed (key, value) pairs
+		e.vals[ins] = Value{T: ins.Type(), It: &IterState{Map: Value{T: ins.X.Type(), S: e.val(ins.X).S}, Opaque: true}}
+		return
+	}
 	m := e.val(ins.X)
 	k := e.mapKeySort(ins.X.Type())
 	name := fmt.Sprintf("X|visited#%d", e.rangeOrdinal(ins))
@@ -853,6 +858,15 @@ func (e *Exec) rangeNext(ins *ssa.Next) {
 		unsupportedf("next on unknown iterator")
 	}
 	mt := it.Map.T.Underlying().(*types.Map)
+	if it.Opaque {
+		ok := e.freshConst("rangeok", "Bool")
+		key := e.freshValue("rangekey", mt.Key())
+		val := e.freshValue("rangeval", mt.Elem())
+		e.assumeWF(s, key, false)
+		e.assumeWF(s, val, false)
+		e.vals[ins] = Value{T: ins.Type(), Tup: []Value{boolVal(ok), key, val}}
+		return
+	}
 	sort := "(Array " + it.KeySort + " Bool)"
 	vis := e.compTerm(s, it.Visited, sort)
 	cntName := strings.Replace(it.Visited, "visited", "count", 1)
